@@ -6,7 +6,8 @@ class C18(ViewsCheck):
     prop = "C18"
     mode = "alias"
     gen_cfg = "GenViews_alias.cfg"
-    types_thorough = ["f64", "f32", "i32", "i64"]
+    types_quick = ["f64", "f32", "i32", "c64"]
+    types_thorough = ["f64", "f32", "i32", "i64", "c64"]     # complex<float> strided views compile in no configuration: not offered
     rule = ("behaviours = `tlc -generate` walks of GenViews (Mode=alias): destination and source slices drawn from the SAME buffer "
             "(shifted, interleaved strides, partial and perfect overlap, ranks 1-4, dynamic and compile-time destinations), with noalias() "
             "for arbitrary overlap and without it only for identical or disjoint selections (the property's domain, checked by the generator "
